@@ -6,7 +6,7 @@ ASSUMPTIONS = ['network value built by netbuild (equal to Network::new by C17), 
                'every state is produced from Schedule::empty by real public modifications executed symbolically; arguments are drawn from a menu computed from the actual state (valid vehicles, segments of their tours, compatible and incompatible paths)',
                'vehicle capacity/seats concrete (5/7, 11/3); passengers, limits, depot capacities, times, locations, dead-heads symbolic']
 BOUNDS = {'quick': '1 type, 1 real depot (capacity 0..2, per-type 0..2) + overflow, 3 trips + 1 slot, 2 locations: all scripts of length 1, all scripts of length 2 whose first operation is one of three representative spawns (single trip / maintenance slot / trip with explicit depots), + 5 explicit scripts of length 4; only the last step of an enumerated script is checked (its prefixes are scripts of their own)',
-          'thorough': 'all scripts of length 2, scripts of length 3 for three first operations and every second menu index, the two-type / two-depot variant with all scripts of length 2'}
+          'thorough': 'all scripts of length 2; scripts of length 3 whose first operation is one of two representative spawns and whose second is every second of the first 32 menu entries; the two-type / two-depot instance with the scripts of length 2 after every second first operation; all explicit scripts. Each job is capped at 30 min and the run at 2.5 h: what was cut is listed in the evidence, never counted as held'}
 OUTSIDE = 'longer histories, larger instances (not claimed; no inductive generalisation)'
 REQUIRED_COVERS = {'quick': ['op:spawn:ok', 'op:spawn:err', 'op:to_dummy:ok', 'op:add_path:ok', 'op:remove_segment:ok', 'op:fit_reassign:ok', 'op:override_reassign:ok', 'op:improve_depots:ok', 'op:reassign_end_depots_consistent_with_transitions:ok', 'overflow depot used']}
 REQUIRED_COVERS['thorough'] = REQUIRED_COVERS['quick']
